@@ -6,6 +6,31 @@ Require Import SC3.model.ProtoGrammar SC3.model.Proto SC3.gen.Gen_proto.
 Require Import SC3.proofs.C17_gram SC3.proofs.C17_args SC3.proofs.C17_bind SC3.proofs.C17_life SC3.proofs.C17_conform SC3.proofs.C17_optac.
 Open Scope string_scope. Open Scope Z_scope. Open Scope list_scope.
 
+Lemma og_OPlay : forall n L s a0 a1 a2 a3 a4 a5 a6 s1 sends e,
+  InvO L s -> wf_op n s (OPlay a0 a1 a2 a3 a4 a5 a6) = true -> obj_step repaired s (OPlay a0 a1 a2 a3 a4 a5 a6) = (s1, sends, e) ->
+  InvO (op_ids s (OPlay a0 a1 a2 a3 a4 a5 a6) ++ L) s1 /\ Forall (Good (op_ids s (OPlay a0 a1 a2 a3 a4 a5 a6) ++ L)) (flat_map send_msgs sends).
+Proof.
+  intros n L s a0 a1 a2 a3 a4 a5 a6 s1 sends e I Hw H.
+  cbn [wf_op] in Hw; try discriminate Hw; split_ands.
+  unfold obj_step, obj_step_core, ok, fail in H.
+  brk_hyp H; inversion H; subst; clear H.
+  all: cbn [flat_map send_msgs app].
+  all: cbn [op_ids].
+  all: pose proof (io_dg _ _ I) as [DG DGS].
+  all: change (v_dict_brackets repaired) with false in *.
+  all: (split; [ try solve [inv_tac I] | try solve [constructor] ]).
+  all: try solve [ use_target L I; use_nodes L I; unfold pargroup_creation_cmd, group_creation_cmd, py_int in *;
+                   brk_eqs; bools; goods ].
+  all: try solve [ bools; brk_eqs; toks; match goal with G : get_buf _ _ = Some _ |- _ => use_buf L I G end;
+                   repeat match goal with G : get_buf _ _ = Some _ |- _ => use_buf L I G end;
+                   ions; brk_eqs; goods ].
+  all: try solve [ bools; brk_eqs; toks; match goal with G : get_bus _ _ = Some _ |- _ => use_bus L I G end; ions; brk_eqs; goods ].
+  all: use_target L I; use_nodes L I.
+  all: try solve [apply invO_add_node; [inv_tac I | known_tac]].
+  all: repeat (constructor; [first [ eapply good_play; eauto using io_objs; try solve [known_tac]; try (right; right; right; right; reflexivity) | good_fixed ]|]); try constructor.
+
+Qed.
+
 Lemma og_OBufNew : forall n L s a0 a1 a2 a3 a4 a5 s1 sends e,
   InvO L s -> wf_op n s (OBufNew a0 a1 a2 a3 a4 a5) = true -> obj_step repaired s (OBufNew a0 a1 a2 a3 a4 a5) = (s1, sends, e) ->
   InvO (op_ids s (OBufNew a0 a1 a2 a3 a4 a5) ++ L) s1 /\ Forall (Good (op_ids s (OBufNew a0 a1 a2 a3 a4 a5) ++ L)) (flat_map send_msgs sends).
@@ -510,28 +535,6 @@ Lemma og_OBufNormalize : forall n L s a0 a1 a2 s1 sends e,
   InvO (op_ids s (OBufNormalize a0 a1 a2) ++ L) s1 /\ Forall (Good (op_ids s (OBufNormalize a0 a1 a2) ++ L)) (flat_map send_msgs sends).
 Proof.
   intros n L s a0 a1 a2 s1 sends e I Hw H.
-  cbn [wf_op] in Hw; try discriminate Hw; split_ands.
-  unfold obj_step, obj_step_core, ok, fail in H.
-  brk_hyp H; inversion H; subst; clear H.
-  all: cbn [flat_map send_msgs app].
-  all: cbn [op_ids].
-  all: pose proof (io_dg _ _ I) as [DG DGS].
-  all: change (v_dict_brackets repaired) with false in *.
-  all: (split; [ try solve [inv_tac I] | try solve [constructor] ]).
-  all: try solve [ use_target L I; use_nodes L I; unfold pargroup_creation_cmd, group_creation_cmd, py_int in *;
-                   brk_eqs; bools; goods ].
-  all: try solve [ bools; brk_eqs; toks; match goal with G : get_buf _ _ = Some _ |- _ => use_buf L I G end;
-                   repeat match goal with G : get_buf _ _ = Some _ |- _ => use_buf L I G end;
-                   ions; brk_eqs; goods ].
-  all: try solve [ bools; brk_eqs; toks; match goal with G : get_bus _ _ = Some _ |- _ => use_bus L I G end; ions; brk_eqs; goods ].
-
-Qed.
-
-Lemma og_OBufCopyData : forall n L s a0 a1 a2 a3 a4 s1 sends e,
-  InvO L s -> wf_op n s (OBufCopyData a0 a1 a2 a3 a4) = true -> obj_step repaired s (OBufCopyData a0 a1 a2 a3 a4) = (s1, sends, e) ->
-  InvO (op_ids s (OBufCopyData a0 a1 a2 a3 a4) ++ L) s1 /\ Forall (Good (op_ids s (OBufCopyData a0 a1 a2 a3 a4) ++ L)) (flat_map send_msgs sends).
-Proof.
-  intros n L s a0 a1 a2 a3 a4 s1 sends e I Hw H.
   cbn [wf_op] in Hw; try discriminate Hw; split_ands.
   unfold obj_step, obj_step_core, ok, fail in H.
   brk_hyp H; inversion H; subst; clear H.
